@@ -14,6 +14,8 @@ Terms: `*` or `T<hex>` (`T_` = empty text).  Token: `L/<terms>` or `R/<from>/<to
   wf <terms>                                 -> ok <0|1>              (hypothesis WF of c13_wildcard_iff_glob)
   rcheck <R/...> <token> num=...             -> ok <n|t> <0|1>        (n = numeric search chosen, t = text)
   search <token> <ordered> <base> <dict> num=...   -> ok <tids> | panic
+  active <token> <tid:hex,...> num=...       -> ok <tids> | panic     (TokenList.FindPattern)
+  pget <base> <block;block> <tids>           -> ok <hex,...>          (token.Provider.GetToken, call sequence)
   select <hint> <minVal> <maxVals>           -> ok <l> <r>
   sealed <token> <base> <block;block> num=...      -> ok <tids> | panic
   maxkey                                     -> ok <key of math.MaxFloat64>
@@ -58,6 +60,8 @@ def numTable? (s : String) : Option (List (Bytes × Int)) :=
   | _ => none
 
 def mkPf (tab : List (Bytes × Int)) (b : Bytes) : Option Int := (tab.find? fun e => e.1 == b).map (·.2)
+
+def fmtB (b : Bytes) : String := if b.isEmpty then "_" else fmtHex b
 
 def fmtTids : Option (List Nat) → String
   | none => "panic"
@@ -113,6 +117,19 @@ def step (line : String) : String :=
     | some tk, some ord, some base, some dict, some tab =>
       fmtTids (search (mkPf tab) maxFloatKey tk ⟨base, dict, ord⟩)
     | _, _, _, _, _ => "bad-op"
+  | ["active", tk, ents, num] =>
+    let ent? (e : String) : Option (Nat × Bytes) :=
+      match e.splitOn ":" with
+      | [t, h] => do pure ((← t.toNat?), (← bytes? h))
+      | _ => none
+    match token? tk, (splitList ents).mapM ent?, numTable? num with
+    | some tk, some ents, some tab => fmtTids (activeFind (mkPf tab) maxFloatKey tk ents)
+    | _, _, _ => "bad-op"
+  | ["pget", base, blocks, tids] =>
+    match base.toNat?, (splitList blocks ";").mapM (bytesList? ·), natList? tids with
+    | some base, some blocks, some tids =>
+      "ok " ++ fmtList fmtB (providerGetTokens (mkEntries base blocks) blocks none tids)
+    | _, _, _ => "bad-op"
   | ["select", hint, mn, mx] =>
     match bytes? hint, bytes? mn, bytesList? mx with
     | some hint, some mn, some mx =>
